@@ -71,6 +71,15 @@ def cases(tier, seed, shard, nshards):
             else:
                 texts.append(repr(k / tps))
         yield {"kind": "snap", "tps": tps, "texts": texts}
+    if tier == "thorough" or shard < 2:
+        tps = rng.choice([10, 1000])
+        yield {"kind": "snap", "tps": tps, "texts": [repr(k * 0.37 / tps + (k % 7) * 1e-4 / tps) for k in range(6000)], "_big": True}
+        t_ = 0.0
+        pipes = []
+        for j in range(6000):
+            t_ += rng.choice([0.0, 0.01, 0.3])
+            pipes.append({"arrival": repr(round(t_, 4)), "rows": rng.choice([1, 2])})
+        yield {"kind": "jitter", "pipes": pipes, "delta": rng.choice([0.0, 0.05, 2.0]), "seed": 7, "_big": True}
     for i in range(N_JIT[tier]):
         n = rng.randint(3, 60)
         t = 0.0
